@@ -41,8 +41,11 @@ def _extents(ctx, construct, box):
     out = []
     for name, fn in (('ixmin', sp.floor), ('ixmax', sp.ceiling), ('iymin', sp.floor), ('iymax', sp.ceiling)):
         v = box.fields.get(name)
-        ctx.need(v is not None and is_num(v), construct, f'field {name} missing')
-        if not isinstance(v, fn):
+        ctx.need(v is not None, construct, f'field {name} missing')
+        if not is_num(v):
+            need_known(ctx, v, construct)
+            out.append(('wrap', name, v))      # understood, but not a number built from the shape's fields
+        elif not isinstance(v, fn):
             out.append(('wrap', name, v))
         else:
             out.append(('ok', name, v.args[0] - sp.Rational(1, 2)))
